@@ -1367,6 +1367,11 @@ class LangServer:
                 if ast_old is not None:
                     for key in ast_old.global_dict:
                         self.obj_tree.pop(key, None)
+                # Forget the file and everything other files had linked to it
+                self.workspace.pop(filepath, None)
+                self.link_version = (self.link_version + 1) % 1000
+                for _, other_obj in self.workspace.items():
+                    other_obj.ast.resolve_links(self.obj_tree, self.link_version)
             return
         did_change, err_str = self.update_workspace_file(
             filepath, read_file=True, allow_empty=did_open
